@@ -663,7 +663,16 @@ def _drop_dead_defs(fdef, body):
                     h.body = clean(h.body) or [ast.copy_location(ast.Pass(), h)]
             out.append(st)
         return out
-    return clean(body)
+    body = clean(body)
+    # a dropped definition may have held the last call of another one
+    for _ in range(4):
+        loads2 = {n.id for st in body for n in ast.walk(st) if isinstance(n, ast.Name) and isinstance(n.ctx, ast.Load)}
+        if loads2 == loads:
+            break
+        loads.clear()
+        loads.update(loads2)
+        body = clean(body)
+    return body
 
 
 # -- N21 / N22: pre-passes on the plain Python AST of one function ---------------------------------------------------------------
@@ -715,6 +724,38 @@ def _split_assign(st):
     return None
 
 
+def _resplit_assigns(stmts):
+    """N23 again once helper results have been put in place: `a, b = (x, y)` left by an inlined `return x, y`"""
+    i = 0
+    while i < len(stmts):
+        st = stmts[i]
+        if isinstance(st, ast.Assign):
+            sp = _split_assign(st)
+            if sp:
+                stmts[i:i + 1] = sp
+                i += len(sp)
+                continue
+        elif isinstance(st, InlineBlock):
+            for f in ("prologue", "body", "epilogue"):
+                _resplit_assigns(getattr(st, f))
+        else:
+            for owner, f in _child_lists(st):
+                _resplit_assigns(getattr(owner, f))
+        i += 1
+
+
+def _some_branch_leaves(c):
+    """some branch of the if / elif chain ends in return / raise / continue / break"""
+    for br in (c.body, c.orelse):
+        if not br:
+            continue
+        if _ends_flow(br):
+            return True
+        if isinstance(br[-1], ast.If) and _some_branch_leaves(br[-1]):
+            return True
+    return False
+
+
 def _sink_returns(stmts):
     """N22: `<if / try> ; return v` -> the return is copied to the end of every branch that falls through (v a plain name or constant, so the
     copy cannot raise and evaluates nothing twice); `x = E; return x` -> `return E`.  Single-exit code and early-return code get one form."""
@@ -729,7 +770,7 @@ def _sink_returns(stmts):
         if isinstance(c, ast.If) and 2 <= len(tail) <= 4 and isinstance(tail[-1], (ast.Return, ast.Raise)) \
                 and all(isinstance(t, (ast.Expr, ast.Assign, ast.AugAssign, ast.Return, ast.Raise)) for t in tail) \
                 and not any(isinstance(x, (ast.Lambda, ast.Yield, ast.YieldFrom, ast.Await)) for t in tail for x in ast.walk(t)) \
-                and (_ends_flow(c.body) or (c.orelse and _ends_flow(c.orelse)) or isinstance(tail[-1].value if isinstance(tail[-1], ast.Return) else None, ast.Tuple)):
+                and _some_branch_leaves(c):
             for f in ("body", "orelse"):
                 br = getattr(c, f)
                 if not _ends_flow(br):
@@ -1269,6 +1310,7 @@ class Normalizer:
         self._comp_displays(fdef, modname, cname, state)
         _merge_dict_stores(fdef)
         fdef.body = _drop_dead_defs(fdef, _flatten_blocks(self._stmts(fdef.body, modname, cname, stack, state)))
+        _resplit_assigns(fdef.body)
         al_ = []
         _eliminate_aliases(fdef, al_)
         for y_, x_, ln_ in al_:
@@ -1494,7 +1536,9 @@ class Normalizer:
         _propagate_bools(helper)
         helper.body = _sink_returns(helper.body)
         sub_state = {"locals": _local_names(helper), "caller": qual, "module": modname, "root": helper}
-        outer_closures, self._closures = self._closures, {}
+        # a local closure shares its enclosing function's other closures (`error()` called from `parse_integer()`)
+        outer_closures = self._closures
+        self._closures = {n_: f_ for n_, f_ in outer_closures.items() if f_ is not fdef} if any(f_ is fdef for f_ in outer_closures.values()) else {}
         helper.body = self._stmts(helper.body, modname, hcls, stack + (qual,), sub_state)
         self._closures = outer_closures
         params = [a.arg for a in helper.args.args]
